@@ -129,6 +129,8 @@ type UpstreamSpec struct {
 type DomainSetSpec struct {
 	Tag   string     `json:"tag"`
 	Files [][]string `json:"files"` // lines per file
+	// NoFinalNewline: indices of files whose last line is not terminated.
+	NoFinalNewline []int `json:"no_final_newline,omitempty"`
 }
 
 type RuleSpec struct {
